@@ -116,6 +116,7 @@ Definition dispatch (name : list Z) (a : sexp) : sexp :=
   else if name_is name "proxy_run" then d_proxy_run a
   else if name_is name "c18_roundtrip" then d_c18_roundtrip a
   else if name_is name "des" then d_des a
+  else if name_is name "api_run" then d_api_run a
   else if name_is name "exit_status" then d_exit_status a
   else if name_is name "script_run" then d_script_run op_of_sexp a
   else if name_is name "vnc_key" then d_vnc_key a
